@@ -7,19 +7,16 @@
 -/
 import SMGo.Model.Curve
 import SMGo.Model.SM3State
+import SMGo.Spec.SM2Proto
 namespace SMGo.Model.SM2
 open SMGo SMGo.Model.Field
 
 /-! ### Randomness source -/
 
-/-- one `Read` event of a scripted `io.Reader` -/
-inductive Item where
-  | data (b : Bytes)   -- bytes available; a Read takes a prefix, the rest stays for the next Read
-  | fail               -- this Read returns (0, err)
-  | zero               -- this Read returns (0, nil)
-deriving DecidableEq, Repr
-
-abbrev Script := List Item
+/-- one `Read` event of a scripted `io.Reader`: `.data b` = bytes available (a Read takes a prefix, the
+    rest stays for the next Read), `.fail` = this Read returns (0, err), `.zero` = returns (0, nil) -/
+abbrev Item := Spec.SM2.Item
+abbrev Script := Spec.SM2.Script
 
 /-- `io.ReadFull(rand, buf)` with `len(buf) = want > 0`: bytes read so far in `acc`.
     End of script = EOF.  Returns the filled buffer or `none` (error), and the remaining script. -/
@@ -33,10 +30,10 @@ def readFull : Script → Nat → Bytes → Option Bytes × Script
     else readFull rest (want - b.length) (acc ++ b)
 
 /-- bytes delivered by the script in total (for the "consumed" count) -/
-def Script.avail : Script → Nat
+def avail : Script → Nat
   | [] => 0
-  | .data b :: r => b.length + Script.avail r
-  | _ :: r => Script.avail r
+  | .data b :: r => b.length + avail r
+  | _ :: r => avail r
 
 /-! ### Context -/
 
@@ -94,7 +91,7 @@ def generateKey (X : Ctx α β) (rand : Option Script) : Outcome ((Bytes × Byte
     let pub ← scalarBaseMult X priv
     let pubBytes := Point.bytes X.C pub false
     if pubBytes.length ≠ 65 then .err else
-    pure ((priv, (pubBytes.drop 1).take 32, pubBytes.drop 33), sc.avail - sc'.avail)
+    pure ((priv, (pubBytes.drop 1).take 32, pubBytes.drop 33), avail sc - avail sc')
 
 /-- `CheckOnCurve(x, y)` -/
 def checkOnCurve (X : Ctx α β) (x y : Bytes) : Bool :=
@@ -156,7 +153,7 @@ def signHashed (X : Ctx α β) (sc : Script) (priv e : Bytes) : Outcome ((Bytes 
   let test ← testPrivateKey X priv
   if test ≠ 0 then .err else
   let ((r, s), sc') ← signLoop X priv e (sc.length + 1) sc
-  pure ((r, s), sc.avail - sc'.avail)
+  pure ((r, s), avail sc - avail sc')
 
 /-- e = SM3(za ‖ msg) through Write, Write, Sum -/
 def hashZaMsg (X : Ctx α β) (za msg : Bytes) : Bytes :=
@@ -185,7 +182,7 @@ def verifyHashed (X : Ctx α β) (pubx puby e r s : Bytes) : Outcome Bool :=
     let tBytes := ensure32 t
     match Curve.scalarMixedMult (Curve.pointOps X.C) s pub tBytes X.first X.second with
     | .ok result =>
-      if isZero X.C.F result.z = 1 then .ok false else
+      if (Point.bytes X.C result false).length = 1 then .ok false else
       let R := (Point.getAffineXUnsafe X.C result + Bytes.toNatBE e) % X.n
       .ok (R = rInt)
     | .err => .ok false
